@@ -385,6 +385,97 @@ theorem visitAll_perm {ms ms' : List (Msg Nat)} (h : ms.Perm ms') (k : Key) : vi
   · have he' : ¬ msgValsOf k ms' = [] := fun h' => he (this.2 h')
     simp [he, he']
 
+
+/-! ### `n` inserts of one key at once (`verif_cache_insert_n`)
+
+The label `ins k n` of the counting_set machine contributes a count of `n`.  The hook
+`counting_set::verif_cache_insert_n(key, n)` of the code (one real `cache_insert`, then `n-1`
+added to the cached count, only if the result stays below INT32_MAX) is replayed as that one
+label.  It is the same as `n` ordinary, uninterrupted inserts of the key — as long as no
+intermediate count reaches the saturation guard — so every ledger theorem above (they are
+stated for arbitrary contributed counts, see `cache_ledger_counts`) covers it, and the guard
+itself is exercised by the ordinary inserts that follow a preload of INT32_MAX - 1 … - 3. -/
+
+theorem CMap.clear_clear {V} (c : CMap V) (s : Nat) : (c.clear s).clear s = c.clear s := by
+  simp [CMap.clear, List.filter_filter]
+
+theorem CMap.set_set {V} (c : CMap V) (s : Nat) (e e' : Key × V) : (c.set s e).set s e' = c.set s e' := by
+  simp [CMap.set, CMap.clear, List.filter_filter]
+
+/-- cached count of `k` in its slot (0 when the slot is free) -/
+def cnt (N : Nat) (s : St Nat) (k : Key) : Nat :=
+  match s.cache.get (k % N) with
+  | some (_, c) => c
+  | none => 0
+
+/-- the slot of `k` is free or already holds `k` -/
+def SlotReady (N : Nat) (s : St Nat) (k : Key) : Prop :=
+  s.cache.get (k % N) = none ∨ ∃ c, s.cache.get (k % N) = some (k, c)
+
+/-- one uninterrupted insert contributing `v`, away from the guard: the slot holds `cnt + v` afterwards -/
+theorem ins_done_atomic (N : Nat) (s : St Nat) (k : Key) (v : Nat) (hen : canEnter s.stack = true)
+    (hslot : SlotReady N s k) (hnf : cnt N s k + v ≠ 2147483647) :
+    run (csetCfg N) s [.ins k v, .done]
+      = some { cache := s.cache.set (k % N) (k, cnt N s k + v), reg := true, stack := s.stack } := by
+  have hfull : ∀ w, w ≠ 2147483647 → (csetCfg N).full w = false := by
+    intro w hw; simp [csetCfg, hw]
+  cases hslot with
+  | inl hnone =>
+    have hc : cnt N s k = 0 := by simp [cnt, hnone]
+    have : v ≠ 2147483647 := by rw [hc] at hnf; simpa using hnf
+    simp [run, step, hen, csetCfg, insLoop, slot, hnone, enter, this, hc]
+  | inr hsome =>
+    obtain ⟨c, hc⟩ := hsome
+    have hcn : cnt N s k = c := by simp [cnt, hc]
+    rw [hcn] at hnf
+    simp [run, step, hen, csetCfg, insLoop, slot, hc, enter, hnf, hcn]
+
+/-- **insert_n_eq_preload**: `n ≥ 1` uninterrupted ordinary inserts of `k` (no count on the way
+reaches INT32_MAX) leave exactly the state of the single label `ins k n`. -/
+theorem insert_n_eq_preload (N : Nat) (s : St Nat) (k : Key) (n : Nat) (hn : 0 < n)
+    (hen : canEnter s.stack = true) (hslot : SlotReady N s k) (hsmall : cnt N s k + n < 2147483647) :
+    run (csetCfg N) s (List.flatten (List.replicate n [Label.ins k 1, Label.done]))
+      = run (csetCfg N) s [.ins k n, .done] := by
+  rw [ins_done_atomic N s k n hen hslot (by omega)]
+  induction n generalizing s with
+  | zero => omega
+  | succ m ih =>
+    cases m with
+    | zero =>
+      simp only [List.replicate, List.flatten_cons, List.flatten_nil, List.append_nil]
+      exact ins_done_atomic N s k 1 hen hslot (by omega)
+    | succ m =>
+      rw [List.replicate_succ, List.flatten_cons, run_append,
+        ins_done_atomic N s k 1 hen hslot (by omega)]
+      simp only [Option.bind]
+      obtain ⟨s₁, hs₁⟩ : ∃ s₁ : St Nat, s₁ = { cache := s.cache.set (k % N) (k, cnt N s k + 1), reg := true, stack := s.stack } := ⟨_, rfl⟩
+      have hc1 : cnt N s₁ k = cnt N s k + 1 := by simp [cnt, hs₁, CMap.get_set_self]
+      have hready : SlotReady N s₁ k := Or.inr ⟨cnt N s k + 1, by simp [hs₁, CMap.get_set_self]⟩
+      have hen₁ : canEnter s₁.stack = true := by rw [hs₁]; exact hen
+      have := ih s₁ (by omega) hen₁ hready (by rw [hc1]; omega)
+      rw [← hs₁, this, hc1, hs₁]
+      simp only [CMap.set_set]
+      have : cnt N s k + 1 + (m + 1) = cnt N s k + (m + 1 + 1) := by omega
+      rw [this]
+
+/-- the guard: the insert that brings the cached count to INT32_MAX flushes it at once (a send
+of `(k, 2147483647)` is in progress) instead of letting the 32-bit counter wrap -/
+theorem saturation_flushes (N : Nat) (s : St Nat) (k : Key) (v : Nat) (hen : canEnter s.stack = true)
+    (c : Nat) (hslot : s.cache.get (k % N) = some (k, c)) (hfull : c + v = 2147483647) :
+    step (csetCfg N) s (.ins k v)
+      = some { cache := s.cache.clear (k % N), reg := true,
+               stack := .tail (.pend ⟨true, k, 2147483647⟩) :: s.stack } := by
+  simp [step, hen, csetCfg, insLoop, slot, hslot, enter, hfull]
+
+/-- a preload of INT32_MAX - 1 followed by one ordinary insert: the guard flushes 2147483647, and the
+barrier flushes nothing more for that key -/
+example : (run (csetCfg 4) .init [.ins 5 2147483646, .done, .ins 5 1, .pack, .ret, .done, .ins 5 1, .done, .fb, .pack, .ret, .fe, .bar]).map
+    (fun s => (s.stack.length, s.reg, s.cache.length)) = some (0, false, 0) := by decide
+example : ownerCount (emitted (csetCfg 4) .init [.ins 5 2147483646, .done, .ins 5 1, .pack, .ret, .done, .ins 5 1, .done, .fb, .pack, .ret, .fe, .bar]) 5
+    = 2147483648 := by decide
+example : run (csetCfg 4) .init (List.flatten (List.replicate 3 [Label.ins 5 1, Label.done]))
+    = run (csetCfg 4) .init [.ins 5 3, .done] := insert_n_eq_preload 4 .init 5 3 (by omega) rfl (Or.inl rfl) (by decide)
+
 /-! ### the hypotheses are satisfiable by non-trivial runs (and the pinned order fails there) -/
 
 /-- two keys sharing slot 1 of a 4-slot cache; a handler inserts while the eviction's send is in progress -/
